@@ -592,7 +592,8 @@ func (g *Gen) genStmts(n int) []Stmt {
 		case 5:
 			s = g.genCallStmt()
 		case 6:
-			if g.fx.inLoop && !g.fx.inCont && g.fx.depth > 1 && (g.fx.inSwitch == 0 || g.on("stmt.continue-in-switch")) {
+			if g.fx.inLoop && !g.fx.inCont && g.fx.depth > 1 && (g.fx.inSwitch == 0 || g.on("stmt.continue-in-switch") || g.fx.inSwitch == 1) {
+				// (finding F78 needs a switch nested in a switch with no loop between: inSwitch >= 2)
 				// conditional break / continue
 				var t Stmt = &Break{}
 				if g.fx.inSwitch > 0 || r.Bool() {
